@@ -381,18 +381,6 @@ Definition cflist_of_model (l : FM.cflist) : Channels.cflist :=
   | FM.CFPNil => CFMasks []
   end.
 
-Lemma firstn_14_15 {A} (l : list A) : firstn 14 (firstn 15 l) = firstn 14 l.
-Proof. rewrite firstn_firstn. reflexivity. Qed.
-
-Lemma masks_from_drop_last : forall (l : list Z) pending x, Nat.even (length l) = true ->
-  masks_from (l ++ [x]) pending = masks_from l pending.
-Proof.
-  fix IH 1. intros [|a [|b r]] pending x He; try reflexivity; try discriminate He.
-  cbn [app masks_from]. cbn [length Nat.even] in He.
-  destruct (all_false (val_bits 16 (a + 256 * b))); [apply IH; assumption|].
-  now rewrite IH.
-Qed.
-
 Lemma cflist_dec_link bs : bytesN bs ->
   cflist_unmarshal (map Z.of_N bs) = omap cflist_of_model (FM.cflist_unmarshal bs).
 Proof.
@@ -402,16 +390,11 @@ Proof.
   do 16 (destruct bs as [|? bs]; [discriminate L|]). destruct bs; [|discriminate L]. clear L.
   cbn [map nth]. 
   destruct (n14 =? 1)%N eqn:T; destruct (Z.of_N n14 =? 1) eqn:T'; try lia; cbn [omap bind cflist_of_model FM.cf_payload].
-  - f_equal. f_equal. rewrite firstn_14_15. cbn [firstn].
-    rewrite masks_loop_link; [| |cbn; lia].
-    + cbn [app map].
-      change [Z.of_N n; Z.of_N n0; Z.of_N n1; Z.of_N n2; Z.of_N n3; Z.of_N n4; Z.of_N n5; Z.of_N n6; Z.of_N n7;
-              Z.of_N n8; Z.of_N n9; Z.of_N n10; Z.of_N n11; Z.of_N n12; Z.of_N n13]
-        with ([Z.of_N n; Z.of_N n0; Z.of_N n1; Z.of_N n2; Z.of_N n3; Z.of_N n4; Z.of_N n5; Z.of_N n6; Z.of_N n7;
-               Z.of_N n8; Z.of_N n9; Z.of_N n10; Z.of_N n11; Z.of_N n12] ++ [Z.of_N n13]).
-      now rewrite masks_from_drop_last by reflexivity.
-    + unfold bytesN in *. repeat (apply Forall_cons_iff in Hb; destruct Hb as [? Hb]).
-      repeat (constructor; try assumption).
+  - (* six masks, then RFU: both decoders look at the first 12 bytes *)
+    f_equal. f_equal. cbn [firstn map].
+    rewrite masks_loop_link; [reflexivity| |cbn; lia].
+    unfold bytesN in *. repeat (apply Forall_cons_iff in Hb; destruct Hb as [? Hb]).
+    repeat (constructor; try assumption).
   - cbn [firstn triples map skipn Nat.mul Nat.add le_val unle3]. f_equal. f_equal.
     repeat (f_equal; try lia).
 Qed.
